@@ -31,4 +31,8 @@ MUTATIONS += [
     ("C06", "adv-blockwise-state-shared-across-resources", [("@patch", A + "C06_miss4.diff", 3)]),
     ("C06", "adv-plain-get-keeps-stale-rendering", [("@patch", A + "C06_miss5.diff", 3)]),
 ]
+MUTATIONS += [
+    ("C18", "adv-shutdown-without-timeout-bound", [("@patch", A + "C18_miss1.diff", 3)]),
+    ("C18", "adv-iterated-observation-ends-silently-at-shutdown", [("@patch", A + "C18_miss2.diff", 3)]),
+]
 CONTROLS = []
